@@ -143,8 +143,12 @@ pub fn run(f: &[&str]) -> String {
             let n: usize = f[4].parse().unwrap_or(1);
             let ign = f[2].starts_with('i');
             let src = f[3];
-            fn hist<'de, R: JRead<'de>, T: serde::Deserialize<'de>>(read: R, n: usize, show: fn(&T) -> String) -> String {
-                let mut st = serde_json::Deserializer::new(read).into_iter::<T>();
+            // construction route of the iterator (all must behave the same):
+            //   default          Deserializer::new(read).into_iter()
+            //   src has "+n"     StreamDeserializer::new(read)
+            //   src has "+m"     the reader is passed as `&mut R` (the forwarding `impl Read for &mut R`)
+            //   cfg has 'u'      (unbounded_depth builds) disable_recursion_limit() is called on the Deserializer before into_iter()
+            fn run_hist<'de, R: JRead<'de>, T: serde::Deserialize<'de>>(mut st: serde_json::StreamDeserializer<'de, R, T>, n: usize, show: fn(&T) -> String) -> String {
                 let mut parts = vec![];
                 for _ in 0..n {
                     let it = st.next();
@@ -157,16 +161,40 @@ pub fn run(f: &[&str]) -> String {
                 }
                 parts.join(" ")
             }
+            fn hist1<'de, R: JRead<'de>, T: serde::Deserialize<'de>>(read: R, n: usize, show: fn(&T) -> String, via_new: bool, unlimited: bool) -> String {
+                if via_new && !unlimited {
+                    return run_hist(serde_json::StreamDeserializer::new(read), n, show);
+                }
+                #[allow(unused_mut)]
+                let mut de = serde_json::Deserializer::new(read);
+                if unlimited {
+                    #[cfg(feature = "unbounded_depth")]
+                    de.disable_recursion_limit();
+                    #[cfg(not(feature = "unbounded_depth"))]
+                    return "SKIP".into();
+                }
+                run_hist(de.into_iter::<T>(), n, show)
+            }
+            fn hist<'de, R: JRead<'de>, T: serde::Deserialize<'de>>(mut read: R, n: usize, show: fn(&T) -> String, src: &str, unlimited: bool) -> String {
+                let via_new = src.contains("+n");
+                if src.contains("+m") {
+                    hist1::<&mut R, T>(&mut read, n, show, via_new, unlimited)
+                } else {
+                    hist1::<R, T>(read, n, show, via_new, unlimited)
+                }
+            }
             fn sv(v: &Value) -> String { show_value(v) }
             fn si(_: &IgnoredAny) -> String { "n".into() }
+            let unl = f[1].contains('u');
+            let base_src = src.split('+').next().unwrap_or(src);
             if src.starts_with('s') {
                 let s = match std::str::from_utf8(&data) { Ok(s) => s, Err(_) => return "SKIP".into() };
-                if ign { hist::<_, IgnoredAny>(serde_json::de::StrRead::new(s), n, si) } else { hist::<_, Value>(serde_json::de::StrRead::new(s), n, sv) }
+                if ign { hist::<_, IgnoredAny>(serde_json::de::StrRead::new(s), n, si, src, unl) } else { hist::<_, Value>(serde_json::de::StrRead::new(s), n, sv, src, unl) }
             } else if src.starts_with('b') {
-                if ign { hist::<_, IgnoredAny>(serde_json::de::SliceRead::new(&data), n, si) } else { hist::<_, Value>(serde_json::de::SliceRead::new(&data), n, sv) }
+                if ign { hist::<_, IgnoredAny>(serde_json::de::SliceRead::new(&data), n, si, src, unl) } else { hist::<_, Value>(serde_json::de::SliceRead::new(&data), n, sv, src, unl) }
             } else {
-                let rd = serde_json::de::IoRead::new(ChunkReader::from_spec(&data, src));
-                if ign { hist::<_, IgnoredAny>(rd, n, si) } else { hist::<_, Value>(rd, n, sv) }
+                let rd = serde_json::de::IoRead::new(ChunkReader::from_spec(&data, base_src));
+                if ign { hist::<_, IgnoredAny>(rd, n, si, src, unl) } else { hist::<_, Value>(rd, n, sv, src, unl) }
             }
         }
         "ps" if f.len() == 4 => {
